@@ -48,6 +48,19 @@ func opShape() []int {
 	return []int{2, 2}
 }
 
+// scalarAccessors calls every method that returns a plain value (no tensor): full reductions, NElems,
+// Shape, At, Equals, Gradient, GradContext.  Used under a write footprint.
+func scalarAccessors(x T) {
+	_ = x.NElems()
+	_ = x.Shape()
+	_, _, _, _, _, _, _ = x.Sum(), x.Max(), x.Min(), x.Avg(), x.Var(), x.Std(), x.Mean()
+	idx := make([]int, len(vrt.Dims(x)))
+	_, _ = x.At(idx...)
+	_, _ = x.Equals(x)
+	_ = x.Gradient()
+	_ = x.GradContext()
+}
+
 func c08Arity(op string) int {
 	switch op {
 	case "Add", "Sub", "Mul", "Div", "ElMax", "ElMin", "Dot", "MatMul", "Patch", "PatchFull", "Concat2", "Eq", "Ne", "Gt", "Ge", "Lt", "Le":
